@@ -203,3 +203,121 @@ Theorem C13_range_reachable_exceeds_in_range : exists coeffs pred,
   lane16_idct coeffs pred <> transform_one coeffs pred.
 Proof. exact range_reachable_exceeds_in_range. Qed.
 Print Assumptions C13_range_reachable_exceeds_in_range.
+
+(** ** Encoder-side ranges (proved, not argued) *)
+From Webp Require Import Arch.ArchEncRange.
+
+(** Per-position bounds of the forward DCT of byte residuals. *)
+Theorem C13_fdct_core_pos_bounds : forall d, forallM (in_box 255) d -> forall2M in_box fdctF (fdct_core d).
+Proof. exact fdct_core_pos_bounds. Qed.
+Print Assumptions C13_fdct_core_pos_bounds.
+
+(** Quantise + dequantise (QuantizeCoeffs, the assembly, or the trellis: any
+    level between 0 and (v*iq + b) >> 17 with b < 2^17) moves a coefficient at
+    most one step beyond |coefficient| + sharpening. *)
+Theorem C13_dequant_upper : forall v q iq b level,
+  0 < q -> iq = 131072 / q -> 0 <= b < 131072 -> 0 <= v ->
+  0 <= level <= (v * iq + b) / 131072 -> 0 <= level * q <= v + q.
+Proof. exact dequant_upper. Qed.
+Print Assumptions C13_dequant_upper.
+
+(** The quantiser steps, sharpening factors and biases of the source
+    (regenerated) are within the slack the range theorems assume. *)
+Theorem C13_enc_tables_within_slack : enc_tables_ok = true.
+Proof. exact enc_tables_within_slack. Qed.
+Print Assumptions C13_enc_tables_within_slack.
+
+(** Every coefficient block the encoder reconstructs with ITransform - a
+    dequantised version [c] of the forward DCT of byte residuals, per position
+    |c_i| <= |f_i| + slack_i (DC slack 615: also covers the DC an intra-16x16
+    block receives from the inverse WHT) - is inside the no-wrap region: the
+    lane-16 IDCT equals the portable one. *)
+Theorem C13_encoder_idct_in_range : forall src ref coeffs pred s r c,
+  blk16 src = Ok s -> blk16 ref = Ok r -> Forall byte src -> Forall byte ref ->
+  blk16 coeffs = Ok c -> Forall byte pred ->
+  dequant_close (fdct_core (map2M Z.sub s r)) c ->
+  lane16_idct coeffs pred = transform_one coeffs pred.
+Proof. exact encoder_idct_in_range. Qed.
+Print Assumptions C13_encoder_idct_in_range.
+
+(** The encoder's inverse WHT: input = dequantised forward WHT of sixteen DCT
+    DCs; no lane wraps, and every reconstructed DC is within +-2655. *)
+Theorem C13_encoder_wht_in_range : forall dcs coeffs d c,
+  blk16 dcs = Ok d -> Forall (in_box 2040) dcs -> blk16 coeffs = Ok c ->
+  wht_close (fwht_core d) c ->
+  lane16_wht coeffs = transform_wht coeffs /\ forallM (in_box 2655) (iwht_core c).
+Proof. exact encoder_wht_in_range. Qed.
+Print Assumptions C13_encoder_wht_in_range.
+
+(** The Y2 quantiser (no trellis, no sharpening) meets [wht_close]. *)
+Theorem C13_y2_quant_error : forall v q iq b e,
+  8 <= q -> iq = 131072 / q -> 0 <= v <= 16320 ->
+  (b = 49152 /\ q <= 314 /\ e = 237) \/ (b = 55296 /\ q <= 440 /\ e = 311) ->
+  let level := (v * iq + b) / 131072 in
+  - e <= level * q - v <= e /\ 0 <= level <= 2047.
+Proof. exact y2_quant_error. Qed.
+Print Assumptions C13_y2_quant_error.
+
+(** ** Further kernels (wave 3) *)
+From Webp Require Import Arch.ArchLane16More.
+
+(** DequantCoeffs: PMULLW (AC) and the 32-bit IMUL + 16-bit store (DC) equal int16(level * q). *)
+Theorem C13_lane_dequant_eq : forall x q, int16 x -> 0 <= q <= 32767 ->
+  dequant_lane_ac x q = dequant_go x q /\ dequant_lane_dc x q = dequant_go x q.
+Proof. exact lane_dequant_eq. Qed.
+Print Assumptions C13_lane_dequant_eq.
+
+(** Fancy upsampler: the packed u | v<<16 two-step interpolation equals the
+    9-3-3-1 definition per channel on all byte inputs (interior and edge pixels). *)
+Theorem C13_upsample_packed_eq : forall u0 v0 u1 v1 u2 v2 u3 v3,
+  byte u0 -> byte v0 -> byte u1 -> byte v1 -> byte u2 -> byte v2 -> byte u3 -> byte v3 ->
+  let p := interp_packed (pack_uv u0 v0) (pack_uv u1 v1) (pack_uv u2 v2) (pack_uv u3 v3) in
+  lo8 p = interp_def u0 u1 u2 u3 /\ hi8 p = interp_def v0 v1 v2 v3.
+Proof. exact upsample_packed_eq. Qed.
+Print Assumptions C13_upsample_packed_eq.
+
+Theorem C13_upsample_edge_packed_eq : forall u0 v0 u1 v1,
+  byte u0 -> byte v0 -> byte u1 -> byte v1 ->
+  let p := edge_packed (pack_uv u0 v0) (pack_uv u1 v1) in
+  lo8 p = edge_def u0 u1 /\ hi8 p = edge_def v0 v1.
+Proof. exact upsample_edge_packed_eq. Qed.
+Print Assumptions C13_upsample_edge_packed_eq.
+
+(** DC predictors: PSADBW halves + scalar left column = alternating accumulation. *)
+Theorem C13_lane_dc16_eq : forall top left, List.length top = 16%nat -> List.length left = 16%nat ->
+  dc16_lane top left = dc_go top left 5 16.
+Proof. exact lane_dc16_eq. Qed.
+Print Assumptions C13_lane_dc16_eq.
+
+Theorem C13_lane_dc8_eq : forall top left, List.length top = 8%nat -> List.length left = 8%nat ->
+  dc8_lane top left = dc_go top left 4 8.
+Proof. exact lane_dc8_eq. Qed.
+Print Assumptions C13_lane_dc8_eq.
+
+(** SSE16x16 / 16x8 / 8x8: the lane SSE of any block partition (up to 1024
+    samples) is the sum of the portable block SSEs. *)
+Theorem C13_lane16_sse_blocks_eq : forall bs,
+  Forall (fun ab => List.length (fst ab) = List.length (snd ab) /\ Forall byte (fst ab) /\ Forall byte (snd ab)) bs ->
+  (List.length (List.concat (map fst bs)) <= 1024)%nat ->
+  l_sse_list (List.concat (map fst bs)) (List.concat (map snd bs)) = sse_blocks bs.
+Proof. exact lane16_sse_blocks_eq. Qed.
+Print Assumptions C13_lane16_sse_blocks_eq.
+
+(** TDisto16x16 = sum of the sixteen 4x4 distortions, lane = portable. *)
+Theorem C13_lane16_tdisto16_eq : forall w blocks, Forall (fun x => 0 <= x <= 255) w ->
+  Forall (fun ab => Forall byte (fst ab) /\ Forall byte (snd ab)) blocks ->
+  l_tdisto16 w blocks = tdisto16 w blocks.
+Proof. exact lane16_tdisto16_eq. Qed.
+Print Assumptions C13_lane16_tdisto16_eq.
+
+(** Row kernels: 8-lane loop + optional 4-lane step + scalar tail = per-pixel map
+    (AVX2 version = two SSE2 versions = Go loop), for every row length. *)
+Theorem C13_row_8_4_1_eq : forall (A B : Type) (f : A -> B) (l : list A), row_8_4_1 f f f l = map f l.
+Proof. exact @row_8_4_1_eq. Qed.
+Print Assumptions C13_row_8_4_1_eq.
+
+(** Non-zero scan of QuantizeCoeffs: PMAXSW tree = running maximum. *)
+Theorem C13_lane_nz_scan_eq : forall zz out, List.length zz = 16%nat -> List.length out = 16%nat ->
+  nz_lane zz out = nz_go zz out.
+Proof. exact lane_nz_scan_eq. Qed.
+Print Assumptions C13_lane_nz_scan_eq.
